@@ -1,8 +1,10 @@
 // C11: the binary index-header answers exactly like the full TSDB index.
-// Engine E4. For every generated index (written with the Prometheus index.Writer, format v2), every in-memory sampling
-// rate and every sorted list of requested values (present, absent, repeated) the real BinaryReader (and, once per index,
-// the LazyBinaryReader) is compared with the Prometheus index.Reader of the same bytes: label names, label values,
-// symbols, and posting-list locations (index.Reader.PostingsRanges).
+// Engine E4. For every generated index (byte layout of the Prometheus index.Writer, format v2; buildIndex, cross-checked
+// byte for byte against the writer), every in-memory sampling rate and every sorted list of requested values (present,
+// absent, repeated) the real BinaryReader (and, once per index, the LazyBinaryReader) is compared with the Prometheus
+// index.Reader of the same bytes: label names, label values, symbols, and posting-list locations
+// (index.Reader.PostingsRanges). Reader panics are recovered; lookups that never return are cut by a step budget on the
+// header's byte source (adapter VerifC11WrapBytes) - both are reported as violations.
 //
 // Index families:
 //
@@ -11,23 +13,36 @@
 //	       and "b" is looked up behind a name with many values). The universe of requested values interleaves the 8
 //	       candidates with 9 never-present values (before the first, between any two, after the last).
 //	big:   one label with N values (odd numbers) in a universe of 2N+1 values; sampling rates up to beyond N.
-//	v1:    the format-v1 index of the repository's testdata (the only v1 index available; the writer emits v2 only).
+//	v1:    the format-v1 index of the repository's testdata (the only complete v1 index available; the writer emits v2 only).
+//	long:  label names and label values whose byte length straddles the 1-byte/2-byte boundary of the uvarint length
+//	       prefix used by the symbol table and the postings offset table (1, 127, 128, 129, 300; thorough also 16383,
+//	       16384): first name X of every length x second name Y absent or of every length x value sets {4 one-byte values,
+//	       one value of every length, three values of one long length}, each as format v2 and as format v1 (the same
+//	       bytes with the version byte set to 1: symbol table, postings, postings offset table and TOC have the same layout
+//	       in both versions, only the series section - never read here - differs). Requested values: every present value,
+//	       the same value one byte shorter and one byte longer, short absent values around them; requested names
+//	       additionally each name one byte shorter and one byte longer.
 package c11
 
 import (
 	"bytes"
 	"context"
+	"encoding/binary"
 	"fmt"
+	"hash/crc32"
 	"iter"
 	"os"
 	"path/filepath"
+	"slices"
 	"sort"
+	"strings"
 	"testing"
 
 	"github.com/go-kit/log"
 	"github.com/oklog/ulid/v2"
 	"github.com/prometheus/prometheus/model/labels"
 	"github.com/prometheus/prometheus/storage"
+	"github.com/prometheus/prometheus/tsdb/encoding"
 	"github.com/prometheus/prometheus/tsdb/index"
 	"github.com/thanos-io/objstore"
 
@@ -37,10 +52,42 @@ import (
 )
 
 type Case struct {
-	Fam string `json:"fam"` // small | big | v1
+	Fam string `json:"fam"` // small | big | v1 | long
 	Sa  uint64 `json:"sa,omitempty"`
 	Sb  int    `json:"sb,omitempty"` // 0 none, 1 one value, 2 all candidates
 	N   int    `json:"n,omitempty"`
+	// long family
+	LX int  `json:"lx,omitempty"` // byte length of the first label name
+	LY int  `json:"ly,omitempty"` // byte length of the second label name, 0 = no second name
+	VL int  `json:"vl,omitempty"` // values: 0 = four 1-byte values, -1 = one value of every length of the alphabet, l>1 = three values of l bytes
+	V1 bool `json:"v1,omitempty"` // the index is marked format v1
+}
+
+// byte lengths around the uvarint boundaries 2^7 (and, thorough, 2^14)
+func lengthAlphabet(r *vlib.R) []int {
+	return vlib.Pick(r, []int{1, 127, 128, 129, 300}, []int{1, 127, 128, 129, 300, 16383, 16384})
+}
+
+var valueLetters = "bdfhjlnprt"
+
+func padTo(first byte, pad string, n int) string {
+	return string(first) + strings.Repeat(pad, n-1)
+}
+
+// sh abbreviates long strings in messages.
+func sh(s string) string {
+	if len(s) <= 24 {
+		return fmt.Sprintf("%q", s)
+	}
+	return fmt.Sprintf("%q..(%d bytes)", s[:4], len(s))
+}
+
+func shl(l []string) string {
+	o := make([]string, len(l))
+	for i, s := range l {
+		o[i] = sh(s)
+	}
+	return "[" + strings.Join(o, " ") + "]"
 }
 
 type bs []byte
@@ -60,6 +107,18 @@ func gen(r *vlib.R) iter.Seq[Case] {
 		if !yield(Case{Fam: "v1"}) {
 			return
 		}
+		la := lengthAlphabet(r)
+		for _, v1 := range []bool{false, true} {
+			for _, lx := range la {
+				for _, ly := range append([]int{0}, la...) {
+					for _, vl := range append([]int{0, -1}, la[1:]...) {
+						if !yield(Case{Fam: "long", LX: lx, LY: ly, VL: vl, V1: v1}) {
+							return
+						}
+					}
+				}
+			}
+		}
 		if !yield(Case{Fam: "big", N: bigN}) {
 			return
 		}
@@ -77,9 +136,43 @@ func gen(r *vlib.R) iter.Seq[Case] {
 }
 
 // names -> sorted values of the index described by c, and the universe of values to request.
-func describe(c Case) (map[string][]string, []string) {
+func describe(c Case, la []int) (map[string][]string, []string) {
 	names := map[string][]string{}
 	switch c.Fam {
+	case "long":
+		var vals []string
+		switch {
+		case c.VL == 0:
+			vals = []string{"b", "d", "f", "h"}
+		case c.VL < 0:
+			for i, l := range la {
+				vals = append(vals, padTo(valueLetters[i], "v", l))
+			}
+		default:
+			for i := 0; i < 3; i++ {
+				vals = append(vals, padTo(valueLetters[i], "v", c.VL))
+			}
+		}
+		names[padTo('a', "n", c.LX)] = vals
+		if c.LY > 0 {
+			names[padTo('b', "n", c.LY)] = vals
+		}
+		// requested values: present ones, one byte shorter, one byte longer, short absent ones before/between/after
+		seen := map[string]struct{}{"a": {}, "~": {}}
+		for _, v := range vals {
+			seen[v] = struct{}{}
+			if len(v) > 1 {
+				seen[v[:len(v)-1]] = struct{}{}
+			}
+			seen[v+"v"] = struct{}{}
+			seen[string(v[0]+1)] = struct{}{}
+		}
+		var uni []string
+		for v := range seen {
+			uni = append(uni, v)
+		}
+		sort.Strings(uni)
+		return names, uni
 	case "small":
 		for _, i := range vlib.Bits(c.Sa) {
 			names["a"] = append(names["a"], candidates[i])
@@ -105,15 +198,111 @@ func describe(c Case) (map[string][]string, []string) {
 	return nil, nil
 }
 
-func writeIndex(dir string, names map[string][]string) ([]byte, error) {
-	ctx := context.Background()
-	fn := filepath.Join(dir, "index")
-	w, err := index.NewWriter(ctx, fn)
-	if err != nil {
-		return nil, err
+var castagnoli = crc32.MakeTable(crc32.Castagnoli)
+
+// buildIndex produces, in memory, the format-v2 index that the Prometheus index.Writer writes for one single-label series
+// per (name, value) - see writeIndex, which is the ground truth: sameAsWriter cases are written with both and must be
+// byte-identical (the Prometheus writer allocates ~20 MB of buffers and fsyncs three files per index, which dominated the
+// run time). Layout: header | symbols | series (16-byte aligned) | postings (4-byte aligned) | postings offset table | TOC.
+func buildIndex(names map[string][]string) []byte {
+	lnames, syms := namesAndSymbols(names)
+	symIdx := make(map[string]uint32, len(syms))
+	for i, s := range syms {
+		symIdx[s] = uint32(i)
 	}
+	var out []byte
+	var e encoding.Encbuf
+	be32 := func(b []byte, v int) []byte { return binary.BigEndian.AppendUint32(b, uint32(v)) }
+	pad := func(b []byte, n int) []byte {
+		for len(b)%n != 0 {
+			b = append(b, 0)
+		}
+		return b
+	}
+	section := func(b []byte) []byte { // <len> content <crc32 of content>
+		b = be32(b, e.Len())
+		b = append(b, e.Get()...)
+		return be32(b, int(crc32.Checksum(e.Get(), castagnoli)))
+	}
+	out = be32(out, index.MagicIndex)
+	out = append(out, index.FormatV2)
+
+	tocSymbols := len(out)
+	e.Reset()
+	e.PutBE32int(len(syms))
+	for _, s := range syms {
+		e.PutUvarintStr(s)
+	}
+	out = section(out)
+
+	tocSeries := len(out)
+	type posting struct {
+		name, value string
+		refs        []uint32
+		off         int
+	}
+	postings := []*posting{{}}
+	for _, n := range lnames {
+		for _, v := range sortedCopy(names[n]) {
+			out = pad(out, 16)
+			ref := uint32(len(out) / 16)
+			e.Reset()
+			e.PutUvarint(1) // one label
+			e.PutUvarint32(symIdx[n])
+			e.PutUvarint32(symIdx[v])
+			e.PutUvarint(0) // no chunks
+			out = binary.AppendUvarint(out, uint64(e.Len()))
+			out = append(out, e.Get()...)
+			out = be32(out, int(crc32.Checksum(e.Get(), castagnoli)))
+			postings[0].refs = append(postings[0].refs, ref)
+			postings = append(postings, &posting{name: n, value: v, refs: []uint32{ref}})
+		}
+	}
+
+	tocLabelIndices := len(out)
+	tocPostings := len(out)
+	out = pad(out, 4)
+	postingsStart := len(out)
+	var tmp []byte
+	for _, p := range postings {
+		tmp = pad(tmp, 4)
+		p.off = len(tmp) + postingsStart
+		e.Reset()
+		e.PutBE32int(len(p.refs))
+		for _, r := range p.refs {
+			e.PutBE32(r)
+		}
+		tmp = section(tmp)
+	}
+	out = append(out, tmp...)
+
+	tocPostingsTable := len(out)
+	e.Reset()
+	e.PutBE32int(len(postings))
+	for _, p := range postings {
+		e.PutUvarint(2)
+		e.PutUvarintStr(p.name)
+		e.PutUvarintStr(p.value)
+		e.PutUvarint64(uint64(p.off))
+	}
+	out = section(out)
+
+	e.Reset()
+	for _, o := range []int{tocSymbols, tocSeries, tocLabelIndices, tocPostingsTable, tocPostings, tocPostingsTable} {
+		e.PutBE64(uint64(o))
+	}
+	out = append(out, e.Get()...)
+	return be32(out, int(crc32.Checksum(e.Get(), castagnoli)))
+}
+
+func sortedCopy(l []string) []string {
+	o := append([]string(nil), l...)
+	sort.Strings(o)
+	return o
+}
+
+func namesAndSymbols(names map[string][]string) (lnames, syms []string) {
 	symSet := map[string]struct{}{}
-	var lnames []string
 	for n, vs := range names {
 		lnames = append(lnames, n)
 		symSet[n] = struct{}{}
@@ -121,12 +310,38 @@ func writeIndex(dir string, names map[string][]string) ([]byte, error) {
 			symSet[v] = struct{}{}
 		}
 	}
-	var syms []string
 	for s := range symSet {
 		syms = append(syms, s)
 	}
 	sort.Strings(syms)
 	sort.Strings(lnames)
+	return lnames, syms
+}
+
+// sameAsWriter: the cases whose generated index is compared byte for byte with the Prometheus index.Writer's.
+func sameAsWriter(r *vlib.R, c Case) bool {
+	if r.Thorough() || r.Replaying() {
+		return true
+	}
+	switch c.Fam {
+	case "big":
+		return true
+	case "long":
+		return !c.V1 && c.VL == -1 && (c.LY == 0 || c.LY == 128) // every first-name length, with and without a long second name
+	case "small":
+		return c.Sa == 255
+	}
+	return false
+}
+
+func writeIndex(dir string, names map[string][]string) ([]byte, error) {
+	ctx := context.Background()
+	fn := filepath.Join(dir, "index")
+	w, err := index.NewWriter(ctx, fn)
+	if err != nil {
+		return nil, err
+	}
+	lnames, syms := namesAndSymbols(names)
 	for _, s := range syms {
 		if err := w.AddSymbol(s); err != nil {
 			return nil, err
@@ -155,6 +370,7 @@ type ref struct {
 	names   []string
 	values  map[string][]string
 	symbols []string
+	symRefs []uint32 // reference of symbols[i]: its position in the table (v2) / its byte offset in the index (v1)
 	ranges  map[labels.Label]index.Range
 	last    labels.Label // last entry of the postings offset table (its End may be over-estimated by the header)
 }
@@ -189,6 +405,20 @@ func loadRef(b []byte) (*ref, error) {
 	if err != nil {
 		return nil, err
 	}
+	syms, err := index.NewSymbols(bs(b), rf.version, int(toc.Symbols))
+	if err != nil {
+		return nil, err
+	}
+	for i, s := range rf.symbols {
+		o, err := syms.ReverseLookup(s)
+		if err != nil {
+			return nil, err
+		}
+		if back, err := syms.Lookup(o); err != nil || back != s || (rf.version != index.FormatV1 && o != uint32(i)) {
+			return nil, fmt.Errorf("reference symbol table: symbol %d has reference %d which resolves to %s, %v", i, o, sh(back), err)
+		}
+		rf.symRefs = append(rf.symRefs, o)
+	}
 	err = index.ReadPostingsOffsetTable(bs(b), toc.PostingsTable, func(name, value []byte, _ uint64, _ int) error {
 		rf.last = labels.Label{Name: string(name), Value: string(value)}
 		return nil
@@ -200,8 +430,8 @@ func loadRef(b []byte) (*ref, error) {
 func sortedLists(universe []string, maxLen int) iter.Seq[[]string] {
 	return func(yield func([]string) bool) {
 		for n := 0; n <= maxLen; n++ {
+			l := make([]string, n) // reused: neither the readers nor the checker keep a requested list
 			for ms := range vlib.Multisets(n, len(universe)) {
-				l := make([]string, n)
 				for i, x := range ms {
 					l[i] = universe[x]
 				}
@@ -217,10 +447,55 @@ type checker struct {
 	r  *vlib.R
 	c  Case
 	rf *ref
+
+	nviol map[string]int
+	// the reader call in progress and the number of reads of the header bytes it made (step budget)
+	steps   int
+	curKind string
+	curName string
+	curList []string
 }
 
+// listedPerSig: counter-examples of one signature that are formatted and listed per index; the rest is only counted.
+const listedPerSig = 3
+
 func (k *checker) viol(sig, format string, a ...any) {
+	if k.nviol == nil {
+		k.nviol = map[string]int{}
+	}
+	k.nviol[sig]++
+	if k.nviol[sig] > listedPerSig {
+		k.r.Add("further_counter_examples_not_listed", 1)
+		return
+	}
 	k.r.Violation(sig, fmt.Sprintf(format, a...), k.c)
+}
+
+// stepBudget bounds the reads of the header bytes (index.ByteSlice.Range) a single reader call may make. A correct lookup of
+// n values positions a decoder on the postings offset table at most n+1 times (2 reads each); a lookup loop that stops
+// advancing through the requested values re-positions the decoder forever and is cut here instead of hanging the check.
+const stepBudget = 2000
+
+type stepBudgetExceeded struct{}
+
+type budgetBytes struct {
+	index.ByteSlice
+	k *checker
+}
+
+func (b budgetBytes) Range(start, end int) []byte {
+	b.k.steps++
+	if b.k.steps > stepBudget {
+		panic(stepBudgetExceeded{})
+	}
+	return b.ByteSlice.Range(start, end)
+}
+
+func (k *checker) wrap(b index.ByteSlice) index.ByteSlice { return budgetBytes{b, k} }
+
+// call notes which reader call is about to run and resets its step budget.
+func (k *checker) call(kind, name string, list []string) {
+	k.steps, k.curKind, k.curName, k.curList = 0, kind, name, list
 }
 
 // rangeOK: header range equals the full index' range; the End of the table's last entry may be over-estimated (documented in
@@ -236,36 +511,77 @@ func (k *checker) rangeOK(l labels.Label, got index.Range) bool {
 	return got.End == want.End
 }
 
+// lookNames: every label name of the index, every name one byte shorter and one byte longer (unknown unless it is a name
+// itself) and an unrelated unknown name.
+func (k *checker) lookNames() []string {
+	out := append([]string(nil), k.rf.names...)
+	if k.c.Fam == "long" {
+		for _, n := range k.rf.names {
+			if len(n) > 1 {
+				out = append(out, n[:len(n)-1])
+			}
+			out = append(out, n+"n")
+		}
+	}
+	out = append(out, "zz-unknown")
+	slices.Sort(out)
+	return slices.Compact(out)
+}
+
+// guard runs f and turns a panic of the code under test into a violation.
+func (k *checker) guard(who string, f func()) {
+	defer func() {
+		if p := recover(); p != nil {
+			if s, ok := p.(string); ok && strings.HasPrefix(s, "HARNESS-ERROR") {
+				panic(p)
+			}
+			if _, ok := p.(stepBudgetExceeded); ok {
+				k.viol("reader-call-does-not-terminate", "%s: %s(%s,%s) read the header bytes more than %d times without returning (a correct lookup needs at most %d reads)",
+					who, k.curKind, sh(k.curName), shl(k.curList), stepBudget, 2*(len(k.curList)+1))
+				return
+			}
+			k.viol("panic-in-index-header", "%s: %s(%s,%s): panic: %v", who, k.curKind, sh(k.curName), shl(k.curList), p)
+		}
+	}()
+	f()
+}
+
 func (k *checker) static(h indexheader.Reader, who string) {
 	ctx := context.Background()
 	rf := k.rf
+	k.call("IndexVersion", "", nil)
 	if v, err := h.IndexVersion(); err != nil || v != rf.version {
 		k.viol("index-version-differs", "%s: IndexVersion()=%d,%v want %d", who, v, err, rf.version)
 	}
+	k.call("LabelNames", "", nil)
 	names, err := h.LabelNames()
-	if err != nil || fmt.Sprint(names) != fmt.Sprint(rf.names) {
-		k.viol("label-names-differ", "%s: LabelNames()=%v,%v want %v", who, names, err, rf.names)
+	if err != nil || !slices.Equal(names, rf.names) {
+		k.viol("label-names-differ", "%s: LabelNames()=%s,%v want %s", who, shl(names), err, shl(rf.names))
 	}
-	for _, n := range append(append([]string(nil), rf.names...), "zz-unknown") {
+	for _, n := range k.lookNames() {
+		k.call("LabelValues", n, nil)
 		vals, err := h.LabelValues(n)
-		if err != nil || len(vals) != len(rf.values[n]) || fmt.Sprint(vals) != fmt.Sprint(rf.values[n]) {
-			k.viol("label-values-differ", "%s: LabelValues(%q)=%v,%v want %v", who, n, vals, err, rf.values[n])
+		if err != nil || !slices.Equal(vals, rf.values[n]) {
+			k.viol("label-values-differ", "%s: LabelValues(%s)=%s,%v want %s", who, sh(n), shl(vals), err, shl(rf.values[n]))
 		}
 	}
-	if rf.version == index.FormatV2 {
-		for pass := 0; pass < 2; pass++ { // second pass is served from the symbol caches
-			for i, s := range rf.symbols {
-				got, err := h.LookupSymbol(ctx, uint32(i))
-				if err != nil || got != s {
-					k.viol("symbol-differs", "%s: LookupSymbol(%d)=%q,%v want %q (pass %d)", who, i, got, err, s, pass)
-				}
+	for pass := 0; pass < 2; pass++ { // second pass is served from the symbol caches
+		for i, s := range rf.symbols {
+			k.call("LookupSymbol", "", nil)
+			got, err := h.LookupSymbol(ctx, rf.symRefs[i])
+			if err != nil || got != s {
+				k.viol("symbol-differs", "%s: LookupSymbol(%d)=%s,%v want %s (symbol %d, pass %d)", who, rf.symRefs[i], sh(got), err, sh(s), i, pass)
 			}
 		}
+	}
+	if rf.version != index.FormatV1 {
+		k.call("LookupSymbol", "", nil)
 		if got, err := h.LookupSymbol(ctx, uint32(len(rf.symbols))); err == nil {
-			k.viol("symbol-beyond-table-found", "%s: LookupSymbol(%d)=%q although the index has %d symbols", who, len(rf.symbols), got, len(rf.symbols))
+			k.viol("symbol-beyond-table-found", "%s: LookupSymbol(%d)=%s although the index has %d symbols", who, len(rf.symbols), sh(got), len(rf.symbols))
 		}
 	}
 	an, av := index.AllPostingsKey()
+	k.call("PostingsOffset", an, nil)
 	if rng, err := h.PostingsOffset(an, av); err != nil || !k.rangeOK(labels.Label{Name: an, Value: av}, rng) {
 		k.viol("all-postings-location-differs", "%s: PostingsOffset(all postings key)=%v,%v want %v", who, rng, err, rf.ranges[labels.Label{Name: an, Value: av}])
 	}
@@ -273,33 +589,34 @@ func (k *checker) static(h indexheader.Reader, who string) {
 
 func (k *checker) lookups(h indexheader.Reader, who string, universe []string, maxLen int) (n, mixed int64) {
 	rf := k.rf
-	lookNames := append(append([]string(nil), rf.names...), "zz-unknown")
-	for _, name := range lookNames {
+	for _, name := range k.lookNames() {
 		_, known := rf.values[name]
-		for _, v := range universe {
+		for vi, v := range universe {
 			l := labels.Label{Name: name, Value: v}
 			_, present := rf.ranges[l]
+			k.steps, k.curKind, k.curName, k.curList = 0, "PostingsOffset", name, universe[vi:vi+1]
 			rng, err := h.PostingsOffset(name, v)
 			n++
 			switch {
 			case present && (err != nil || !k.rangeOK(l, rng)):
-				k.viol("single-lookup-location-differs", "%s: PostingsOffset(%q,%q)=%v,%v want %v", who, name, v, rng, err, rf.ranges[l])
+				k.viol("single-lookup-location-differs", "%s: PostingsOffset(%s,%s)=%v,%v want %v", who, sh(name), sh(v), rng, err, rf.ranges[l])
 			case !present && err != indexheader.NotFoundRangeErr:
-				k.viol("single-lookup-missing-value-not-reported", "%s: PostingsOffset(%q,%q)=%v,%v want NotFoundRangeErr", who, name, v, rng, err)
+				k.viol("single-lookup-missing-value-not-reported", "%s: PostingsOffset(%s,%s)=%v,%v want NotFoundRangeErr", who, sh(name), sh(v), rng, err)
 			}
 		}
 		for list := range sortedLists(universe, maxLen) {
+			k.steps, k.curKind, k.curName, k.curList = 0, "PostingsOffsets", name, list
 			rngs, err := h.PostingsOffsets(name, list...)
 			n++
 			if err != nil {
-				k.viol("multi-lookup-error", "%s: PostingsOffsets(%q,%q) failed: %v", who, name, list, err)
+				k.viol("multi-lookup-error", "%s: PostingsOffsets(%s,%s) failed: %v", who, sh(name), shl(list), err)
 				continue
 			}
 			if !known || len(list) == 0 {
 				// unknown name / nothing requested: "no posting" (header.go); an empty answer or all-not-found are both that
 				for _, g := range rngs {
 					if g != indexheader.NotFoundRange {
-						k.viol("multi-lookup-unknown-name-found", "%s: PostingsOffsets(%q,%q)=%v", who, name, list, rngs)
+						k.viol("multi-lookup-unknown-name-found", "%s: PostingsOffsets(%s,%s)=%v", who, sh(name), shl(list), rngs)
 						break
 					}
 				}
@@ -310,7 +627,7 @@ func (k *checker) lookups(h indexheader.Reader, who string, universe []string, m
 				if rf.version == index.FormatV1 {
 					sig = "v1-index:missing-values-dropped-from-multi-lookup"
 				}
-				k.viol(sig, "%s: PostingsOffsets(%q,%q) returned %d ranges %v for %d requested values", who, name, list, len(rngs), rngs, len(list))
+				k.viol(sig, "%s: PostingsOffsets(%s,%s) returned %d ranges %v for %d requested values", who, sh(name), shl(list), len(rngs), rngs, len(list))
 				continue
 			}
 			np := 0
@@ -319,11 +636,11 @@ func (k *checker) lookups(h indexheader.Reader, who string, universe []string, m
 				if _, present := rf.ranges[l]; present {
 					np++
 					if !k.rangeOK(l, rngs[i]) {
-						k.viol("multi-lookup-location-differs", "%s: PostingsOffsets(%q,%q)=%v: position %d (%q) want %v", who, name, list, rngs, i, v, rf.ranges[l])
+						k.viol("multi-lookup-location-differs", "%s: PostingsOffsets(%s,%s)=%v: position %d (%s) want %v", who, sh(name), shl(list), rngs, i, sh(v), rf.ranges[l])
 						break
 					}
 				} else if rngs[i] != indexheader.NotFoundRange {
-					k.viol("multi-lookup-missing-value-not-reported", "%s: PostingsOffsets(%q,%q)=%v: position %d (%q) is not in the index", who, name, list, rngs, i, v)
+					k.viol("multi-lookup-missing-value-not-reported", "%s: PostingsOffsets(%s,%s)=%v: position %d (%s) is not in the index", who, sh(name), shl(list), rngs, i, sh(v))
 					break
 				}
 			}
@@ -339,19 +656,27 @@ func TestCheck(t *testing.T) {
 	r := vlib.New(t, "C11")
 	defer r.Finish()
 	r.Rule("indexes: small = label a with every non-empty subset of 8 candidate values x label b {absent, 1 value, 8 values}; big = one label with N values; v1 = " +
-		"testdata index (format v1); per index every sampling rate (small 1..9, big 1..N+2 and 2N) x every sorted value list with repetition of length <= L over the " +
+		"testdata index (format v1); long = first label name of 1/127/128/129/300 bytes (thorough also 16383/16384) x second name absent or of each of these lengths x " +
+		"values {four 1-byte values, one value of each of these lengths, three values of one long length} x format {v2, v1 = same bytes marked v1}, requested values/names " +
+		"include each present one a byte shorter and a byte longer; per index every sampling rate (small 1..9, big 1..N+2 and 2N, long 1..values+1 and 64, v1 1/3/32) x every sorted value list with repetition of length <= L over the " +
 		"universe (candidates interleaved with never-present values) x every label name and an unknown name, plus all single lookups, names, values, symbols; " +
 		"non-trivial = distinct (index, sampling>1) whose multi-value lookups include lists mixing present and absent values; extra: lookups, mixed lookups")
 	r.Assume("Reference = Prometheus index.Reader (LabelNames, SortedLabelValues, Symbols, PostingsRanges) over the same index bytes.",
 		"As documented on indexheader.Reader, the End of the last entry of the postings offset table may exceed the exact end (bounded by the index size); Start must be exact.",
-		"For an unknown label name or an empty request an empty answer counts as 'not found' (header.go: 'no posting').")
+		"For an unknown label name or an empty request an empty answer counts as 'not found' (header.go: 'no posting').",
+		"Generated format-v1 indexes are format-v2 files of the Prometheus writer with the version byte set to 1: symbol table, postings, postings offset table and TOC are laid out identically in v1 and v2; "+
+			"the series section (which would differ) is read neither by the index-header nor by the reference methods used. Symbol references are taken from index.Symbols.ReverseLookup (table position in v2, byte offset in v1).")
 	listLen := vlib.Pick(r, 3, 5)
 	bigListLen := vlib.Pick(r, 2, 3)
+	la := lengthAlphabet(r)
 	root := t.TempDir()
 	logger := log.NewNopLogger()
 
 	vlib.ForEach(r, gen(r), func(c Case) {
 		ctx := context.Background()
+		if r.Expired("remaining indexes skipped") {
+			return
+		}
 		r.Sample(c)
 		dir, err := os.MkdirTemp(root, "c11")
 		if err != nil {
@@ -374,11 +699,35 @@ func TestCheck(t *testing.T) {
 			samplings = []int{1, 3, 32}
 		default:
 			var names map[string][]string
-			names, universe = describe(c)
-			idx, err = writeIndex(dir, names)
-			if c.Fam == "small" {
+			names, universe = describe(c, la)
+			idx = buildIndex(names)
+			if sameAsWriter(r, c) {
+				var widx []byte
+				if widx, err = writeIndex(dir, names); err == nil && !bytes.Equal(idx, widx) {
+					err = fmt.Errorf("generated index (%d bytes) differs from the index written by the Prometheus index.Writer (%d bytes)", len(idx), len(widx))
+				}
+				r.Add("indexes_compared_with_prometheus_writer", 1)
+			}
+			switch c.Fam {
+			case "small":
 				samplings = []int{1, 2, 3, 4, 5, 6, 7, 8, 9}
-			} else {
+			case "long":
+				ll = bigListLen
+				if c.V1 {
+					if err == nil {
+						idx[4] = index.FormatV1 // same symbol table / postings / postings offset table / TOC layout; series are never read
+					}
+					samplings = []int{1, 3, 32}
+					break
+				}
+				for _, vs := range names {
+					for s := 1; s <= len(vs)+1; s++ {
+						samplings = append(samplings, s)
+					}
+					break
+				}
+				samplings = append(samplings, 64)
+			default:
 				for s := 1; s <= c.N+2; s++ {
 					samplings = append(samplings, s)
 				}
@@ -393,6 +742,10 @@ func TestCheck(t *testing.T) {
 		rf, err := loadRef(idx)
 		if err != nil {
 			t.Errorf("HARNESS-ERROR reading index for %+v with the Prometheus reader: %v", c, err)
+			return
+		}
+		if (c.Fam == "v1" || c.V1) != (rf.version == index.FormatV1) {
+			t.Errorf("HARNESS-ERROR index of %+v has format version %d", c, rf.version)
 			return
 		}
 		if c.Fam == "v1" {
@@ -427,18 +780,65 @@ func TestCheck(t *testing.T) {
 		}
 		k := &checker{r: r, c: c, rf: rf}
 		metrics := indexheader.NewBinaryReaderMetrics(nil)
-		for _, s := range samplings {
+		// the lazy reader once per index; it writes the index-header file into dir (WriteBinary to a file, mmap)
+		func() {
+			const who = "LazyBinaryReader(sampling=3)"
+			var lz *indexheader.LazyBinaryReader
+			var err error
+			k.guard("NewLazyBinaryReader", func() {
+				lz, err = indexheader.NewLazyBinaryReader(ctx, logger, bkt, dir, blockID, 3, indexheader.NewLazyBinaryReaderMetrics(nil), metrics, nil, false)
+			})
+			if err != nil {
+				k.viol("header-not-built", "NewLazyBinaryReader failed: %v", err)
+				return
+			}
+			if lz == nil {
+				return // panicked, reported
+			}
+			k.guard(who, func() {
+				k.call("IndexVersion", "", nil)
+				if _, err := lz.IndexVersion(); err != nil { // loads the header
+					k.viol("header-not-built", "%s: loading failed: %v", who, err)
+					return
+				}
+				if !indexheader.VerifC11WrapBytes(lz, k.wrap) {
+					panic("HARNESS-ERROR lazy reader holds no loaded reader after IndexVersion()")
+				}
+				k.static(lz, who)
+				n, _ := k.lookups(lz, who, universe, 2)
+				r.Add("lookups", n)
+			})
+			if err := lz.Close(); err != nil {
+				t.Errorf("HARNESS-ERROR closing lazy reader: %v", err)
+			}
+		}()
+		// BinaryReader at every sampling rate: the first one builds the header in memory (WriteBinary without a file), the others
+		// open the header file in dir (written by the lazy reader above; re-written by NewBinaryReader if it cannot be read).
+		for i, s := range samplings {
 			if r.Expired("sampling rates of an index cut short") {
 				return
 			}
-			h, err := indexheader.NewBinaryReader(ctx, logger, bkt, "", blockID, s, metrics)
+			hdir, how := dir, "file"
+			if i == 0 {
+				hdir, how = "", "memory"
+			}
+			who := fmt.Sprintf("BinaryReader(sampling=%d,%s)", s, how)
+			var h *indexheader.BinaryReader
+			var err error
+			k.guard(who, func() { h, err = indexheader.NewBinaryReader(ctx, logger, bkt, hdir, blockID, s, metrics) })
 			if err != nil {
-				k.viol("header-not-built", "NewBinaryReader(sampling %d) failed: %v", s, err)
+				k.viol("header-not-built", "NewBinaryReader(sampling %d, %s) failed: %v", s, how, err)
 				continue
 			}
-			who := fmt.Sprintf("BinaryReader(sampling=%d)", s)
-			k.static(h, who)
-			n, mixed := k.lookups(h, who, universe, ll)
+			if h == nil {
+				continue // panicked, reported
+			}
+			var n, mixed int64
+			indexheader.VerifC11WrapBytes(h, k.wrap)
+			k.guard(who, func() {
+				k.static(h, who)
+				n, mixed = k.lookups(h, who, universe, ll)
+			})
 			_ = h.Close()
 			r.Add("lookups", n)
 			r.Add("lookups_mixing_present_and_absent", mixed)
@@ -446,18 +846,18 @@ func TestCheck(t *testing.T) {
 				r.Nontrivial(fmt.Sprint(c, s))
 			}
 		}
-		// the lazy reader (header file on disk, mmap) once per index
-		lz, err := indexheader.NewLazyBinaryReader(ctx, logger, bkt, dir, blockID, 3, indexheader.NewLazyBinaryReaderMetrics(nil), metrics, nil, false)
-		if err != nil {
-			k.viol("header-not-built", "NewLazyBinaryReader failed: %v", err)
-			return
-		}
-		k.static(lz, "LazyBinaryReader(sampling=3)")
-		n, _ := k.lookups(lz, "LazyBinaryReader(sampling=3)", universe, 2)
-		r.Add("lookups", n)
-		if err := lz.Close(); err != nil {
-			t.Errorf("HARNESS-ERROR closing lazy reader: %v", err)
+		if c.Fam == "long" {
+			r.Add("long_family_indexes", 1)
+			for _, nm := range rf.names {
+				if len(nm) >= 128 {
+					r.Add("label_names_of_128_bytes_or_more_compared", 1)
+				}
+				for _, v := range rf.values[nm] {
+					if len(v) >= 128 {
+						r.Add("label_values_of_128_bytes_or_more_compared", 1)
+					}
+				}
+			}
 		}
 	})
 }
-
